@@ -1,60 +1,13 @@
 /-
-C05 helper lemmas, part i: the decidable form of the comparator guard; a Fetch that releases nothing and does
-not change the state repeats forever.  Core Lean only.
+C05 helper lemmas, part i: a Fetch that releases nothing and does not change the state repeats forever.
+Core Lean only.
 -/
 import SigModel.Model.Sched
-import SigModel.Model.SortCmp
-import SigModel.Lemmas.C05g
 set_option linter.unusedSimpArgs false
 set_option linter.unusedVariables false
 
 namespace SigModel.Lemmas.C05
-open SigModel.Sched SigModel.SortCmp
-
-/-- decidable: a numerically ranked value is finite -/
-def finB (rnd : Rat → Rat) (op : SortOp) (v : Val) : Bool :=
-  if getRank v op = .numeric then
-    match floatOf rnd v with
-    | some (.fin _) => true
-    | _ => false
-  else true
-
-/-- decidable: two numerically ranked finite values are equal or not identified by AlmostEquals -/
-def sepB (rnd : Rat → Rat) (op : SortOp) (a b : Val) : Bool :=
-  if getRank a op = .numeric ∧ getRank b op = .numeric then
-    match floatOf rnd a, floatOf rnd b with
-    | some (.fin qa), some (.fin qb) => !almostEq rnd (.fin qa) (.fin qb) || decide (qa = qb)
-    | _, _ => true
-  else true
-
-def posSepB (rnd : Rat → Rat) : List (Bool × SortOp) → List Val → List Val → Bool
-  | k :: ks, x :: xs, y :: ys => finB rnd k.2 x && finB rnd k.2 y && sepB rnd k.2 x y && posSepB rnd ks xs ys
-  | _, _, _ => true
-
-theorem finB_spec (rnd : Rat → Rat) (op : SortOp) (v : Val) (h : finB rnd op v = true) : FinV rnd op v := by
-  intro hr
-  unfold finB at h
-  simp only [hr, if_true] at h
-  split at h
-  · rename_i q hq; exact ⟨q, hq⟩
-  · cases h
-
-theorem sepB_spec (rnd : Rat → Rat) (op : SortOp) (a b : Val) (h : sepB rnd op a b = true) : Sep rnd op a b := by
-  intro qa qb ha hb hra hrb hae
-  unfold sepB at h
-  simp only [hra, hrb, and_self, if_true, ha, hb] at h
-  simp only [hae, Bool.not_true, Bool.false_or, decide_eq_true_eq] at h
-  exact h
-
-theorem posSepB_spec (rnd : Rat → Rat) : ∀ (ks : List (Bool × SortOp)) (a b : List Val),
-    posSepB rnd ks a b = true → PosSep rnd ks a b
-  | [], _, _, _ => by simp [PosSep]
-  | _ :: _, [], _, _ => by simp [PosSep]
-  | _ :: _, _ :: _, [], _ => by simp [PosSep]
-  | k :: ks, x :: xs, y :: ys, h => by
-    simp only [posSepB, Bool.and_eq_true] at h
-    exact ⟨finB_spec rnd _ _ h.1.1.1, finB_spec rnd _ _ h.1.1.2, sepB_spec rnd _ _ _ h.1.2,
-      posSepB_spec rnd ks xs ys h.2⟩
+open SigModel.Sched
 
 /-- a Fetch that releases nothing and leaves the state unchanged repeats for ever: no EOF, nothing more released -/
 theorem stuck_forever (m : Mode) (mb : Nat) (st : St) (h : fetch m mb st = some ([], st)) :
